@@ -46,7 +46,7 @@ def check(ctx):
         return ctx.finish(level="proof", trusted_base=tb.BASE)
     for p in problems:
         ctx.violation("getter corpus run problem: " + p, {"problem": p}, found_input=False)
-    nt2 = nt3 = 0
+    nt2 = nt3 = nst = 0
     shown = 0
     for k in range(nshard):
         il = open(os.path.join(work, "impl%d.txt" % k), encoding="utf8", errors="replace").read().split("\n")
@@ -64,38 +64,51 @@ def check(ctx):
                 break
             ctx.evaluations += 1
             g = by_name[ka[0].split(".")[0]]
+            # implementation: FLAT \t#S STRUCT ; model: FLAT \t#D SPECFLAT \t#S STRUCT \t#V SPECSTRUCT
+            ra_flat, ra_st = (ra.split("\t#S", 1) + [""])[:2] if ra.startswith("ok@") else (ra, "")
             if "\t#D" in rb:
-                got_m, want = rb.split("\t#D", 1)
-                # model: "ok@N\tx=..", spec: "\tx=.." -> same prefix
-                spec = got_m.split("\t", 1)[0] + want
+                got_m, rest = rb.split("\t#D", 1)
+                want, rest2 = (rest.split("\t#S", 1) + [""])[:2]
+                st_m, st_spec = (rest2.split("\t#V", 1) + [""])[:2]
+                spec = got_m.split("\t", 1)[0] + want      # model: "ok@N\tx=..", spec: "\tx=.." -> same prefix
             else:
-                got_m, spec = rb, rb
+                got_m, spec, st_m, st_spec = rb, rb, "", ""
             if ra.startswith("ok@"):
-                nacc = ra.count("\t")
+                nacc = ra_flat.count("\t")
                 ctx.count("accessors_per_rule=%d" % min(nacc, 6))
-                if "=0[]" not in ra or ra.count("=0[]") < nacc:
+                if ra_flat.count("=0[]") < nacc:
                     ctx.nontrivial.add((ka[0], ka[1]))
             else:
                 ctx.count("verdict=" + ra[:5])
-            if ra != spec:
+            rule = g.rules[int(ka[0].split(".s")[1])]
+            text = bytes.fromhex(ka[1] if ka[1] != "-" else "").decode("utf8", "replace")
+            if ra_flat != spec:
                 nt3 += 1
                 if nt3 <= 3:
-                    rule = g.rules[int(ka[0].split(".s")[1])]
                     ctx.violation("accessor value differs from the specification (the directly stored nodes, in mention order): rule %s on %r"
-                                  % (rule, bytes.fromhex(ka[1] if ka[1] != "-" else "").decode("utf8", "replace")),
+                                  % (rule, text),
                                   {"grammar": g.text, "options": {"emit_rule_reference": True}, "rule": rule, "input_hex": ka[1],
-                                   "impl": ra[:1500], "spec (direct_refs / mention_refs on the model tree)": spec[:1500], "model accessor": got_m[:1500]})
-            elif ra != got_m:
+                                   "impl": ra_flat[:1500], "spec (direct_refs / mention_refs on the model tree)": spec[:1500], "model accessor": got_m[:1500]})
+            elif ra_st != st_spec:
+                nt3 += 1
+                nst += 1
+                if nst <= 3:
+                    ctx.violation("accessor returns the right nodes in the wrong Option / Vec / tuple slots (structured specification spec_val): rule %s on %r"
+                                  % (rule, text),
+                                  {"grammar": g.text, "options": {"emit_rule_reference": True}, "rule": rule, "input_hex": ka[1],
+                                   "impl": ra_st[:1500], "spec (spec_val on the model tree)": st_spec[:1500], "model accessor": st_m[:1500]})
+            elif ra_flat != got_m or ra_st != st_m:
                 nt2 += 1
                 if nt2 <= 3:
                     ctx.violation("accessor value differs from Model/Getter.v eval_g (correspondence)", {"grammar": g.text, "input_hex": ka[1],
-                                  "impl": ra[:1500], "model": got_m[:1500]}, found_input=False)
-            if shown < 5 and ra.startswith("ok@") and "=0[]" not in ra:
+                                  "impl": ra[:1500], "model": (got_m + " #S" + st_m)[:1500]}, found_input=False)
+            if shown < 5 and ra.startswith("ok@") and "=0[]" not in ra_flat:
                 shown += 1
-                ctx.samples.append({"grammar": g.text[:200], "input_hex": ka[1], "accessors": ra[:300]})
+                ctx.samples.append({"grammar": g.text[:200], "input_hex": ka[1], "accessors": ra_flat[:300], "structured": ra_st[:300]})
     ctx.coverage["compiled_grammars"] = len(ggs)
     ctx.coverage["accessor_spec_mismatches"] = nt3
     ctx.coverage["accessor_model_mismatches"] = nt2
+    ctx.coverage["accessor_slot_mismatches"] = nst
     ctx.rule = ("V1g: every (rule, identifier) accessor of hand-written getter-biased grammars, the repository grammars and seeded random "
                 "grammars: emitted type and path == Model/Getter.v; compiled corpus with #[emit_rule_reference]: every accessor of every "
                 "content-carrying rule called on every input of the per-grammar input set, flattened by a type-directed trait and printed "
